@@ -1,12 +1,11 @@
 #!/bin/sh
-# tools/trymut.sh <patch.diff> <Cxx> [tier]  -- apply a seeded change to /repo, run the check, undo it.
+# tools/trymut.sh <patch.diff> <Cxx> [tier]  -- apply a seeded change in a scratch worktree of /repo, run the check against it, remove it.
 patch="$1"; prop="$2"; tier="${3:-quick}"
-cd /repo || exit 2
-if [ -n "$(git status --porcelain --untracked-files=no)" ]; then echo "repo not clean"; exit 2; fi
-git apply "$patch" 2>/dev/null || git apply -3 "$patch" 2>/dev/null || { echo "PATCH DOES NOT APPLY"; git reset -q --hard HEAD; exit 2; }
-if [ -n "$(git diff --name-only --diff-filter=U)" ]; then echo "PATCH DOES NOT APPLY (conflict)"; git reset -q --hard HEAD; exit 2; fi
-cd /verif && ./check "$prop" --tier "$tier" > /tmp/trymut.$$.out 2>&1; rc=$?
-git -C /repo reset -q --hard HEAD
+wt=$(mktemp -d /tmp/trymut_wt.XXXXXX); rmdir "$wt"
+git -C /repo worktree add -q --detach "$wt" HEAD || exit 2
+( cd "$wt" && { git apply "$patch" 2>/dev/null || git apply -3 "$patch" 2>/dev/null; } && [ -z "$(git diff --name-only --diff-filter=U)" ] ) || { echo "PATCH DOES NOT APPLY"; git -C /repo worktree remove --force "$wt"; exit 2; }
+cd /verif && VERIF_REPO="$wt" ./check "$prop" --tier "$tier" --no-evidence > /tmp/trymut.$$.out 2>&1; rc=$?
+git -C /repo worktree remove --force "$wt"
 grep -E "^VIOLATION|^INFRA|^KNOWN|key=" /tmp/trymut.$$.out | cut -c1-400 | head -12
 echo "trymut: $patch on $prop ($tier) -> rc=$rc"
 rm -f /tmp/trymut.$$.out
